@@ -204,6 +204,7 @@ func ValidateParameter(ctx context.Context, input *RequestValidationInput, param
 				}
 				populateDefaultQueryParameters(q, parameter.Name, value, explode)
 				req.URL.RawQuery = q.Encode()
+				input.QueryParams = q // keep the cached query in step with the rewritten URL
 			case openapi3.ParameterInHeader:
 				req.Header.Add(parameter.Name, defaultValueText(value))
 			case openapi3.ParameterInCookie:
